@@ -21,6 +21,7 @@ func runC15(c *Ctx) {
 	c.rule("C15.2", func() { c15Outgoing(c) })
 	c.rule("C15.3", func() { c15Dispatch(c) })
 	c.rule("C15.5", func() { c15Accept(c) })
+	c.rule("C15.6", func() { c15Guarded(c) })
 }
 
 // callsFieldFunc: call of a function value loaded from the given struct field.
